@@ -150,8 +150,8 @@ func fDouble(v interface{}) (interface{}, error) {
 	}
 	return nil, errNotNumber
 }
-func fID(v interface{}) (interface{}, error)   { return v, nil }
-func fErr(v interface{}) (interface{}, error)  { return nil, errBoom }
+func fID(v interface{}) (interface{}, error)  { return v, nil }
+func fErr(v interface{}) (interface{}, error) { return nil, errBoom }
 func gList(vs []interface{}) (interface{}, error) {
 	return append([]interface{}{}, vs...), nil
 }
@@ -176,8 +176,8 @@ type Env struct {
 	ImplLog  []spec.Call
 	// ImplFuncErrs counts user-function calls made by the library that returned an error.
 	ImplFuncErrs int
-	Cfg      jsonpath.Config
-	CfgAcc   jsonpath.Config // same functions, accessor mode on
+	Cfg          jsonpath.Config
+	CfgAcc       jsonpath.Config // same functions, accessor mode on
 }
 
 // NewEnv builds the standard environment.
